@@ -50,7 +50,7 @@ CLAIMS = {
         "NeverLost, NoticesAreErrors, ExpCounts over all outcome orders for 3 endpoints x 2 requests. HaConfig.tla states the field-wise consolidation rules and "
         "TLC proves Consolidate(seq) = Reference(set) for every sequence within the bound (order independence). Binding: the real HA service over real TCP "
         "sub-services on per-endpoint scripted sockets; the sub-service calls made inside the HA run are interposed at link time and the traces validated by "
-        "TLC; every TLC-enumerated configuration sequence is pushed by scripted endpoints and the consolidated configuration compared after each push.",
+        "TLC; every TLC-enumerated configuration sequence is pushed by scripted endpoints and the consolidated configuration compared after each push. Every third request scenario runs the EXTENDING high-availability service (extension requests, calendar-chain replies).",
    note="Bounds: MC 3 endpoints x 2 requests (1.8e5 states); configs: all sequences <=2 (quick) / <=3 (thorough) per field over boundary alphabets; traces: 75/900 schedules on 1-3 endpoints. Calendar first/last time consolidation is model-checked but bound only through aggregator fields (maxlevel, period, maxreq). Defect F-C15-1 fixed.",
    technique="TLC model checking + TLC trace validation with link-time interposed sub-service calls + replay of TLC-enumerated configuration sequences"),
  "C09": dict(level="model_checking", design_ref="DESIGN.md 4/C09",
